@@ -29,7 +29,15 @@ func main() {
 		fmt.Println("unknown suite", os.Args[1])
 		os.Exit(2)
 	}
-	r := f()
+	r := func() (r result) {
+		// a panic of the code under check is a falsification, not a harness failure
+		defer func() {
+			if rec := recover(); rec != nil {
+				r = result{Name: os.Args[1], Bound: "aborted by a panic", Falsified: []string{fmt.Sprintf("panic in the code under check: %v", rec)}}
+			}
+		}()
+		return f()
+	}()
 	b, _ := json.Marshal(r)
 	fmt.Println(string(b))
 	if len(r.Falsified) > 0 {
